@@ -1085,18 +1085,19 @@ crate::vp_harness!(addv, |s| { simd2!(s, addv, Op::Addv) });
 // The decoded branch must land on the bound position; the compare/test-and-branch forms may
 // instead emit the inverted branch over an unconditional B (checked by `lands_*`).
 
-/// four NOPs with `l` bound so that exactly k (0..=4) of them follow the label: the code length stays
-/// concrete (a symbolic number of emitted words makes CBMC run out of memory), the label position is symbolic
+/// four NOPs with `l` bound so that exactly k (0..=4) of them follow the label. The code length stays
+/// concrete (a symbolic number of emitted words makes CBMC run out of memory) and the label is bound at one
+/// program point (a symbolic bound/unbound state drags the whole deferred-jump machinery into the bound
+/// path): the NOPs are emitted first and the label is then bound at byte position 4*(4-k) by moving the
+/// position there and back, which is all bind_label looks at.
 pub fn pad_bwd(a: &mut AssemblerArm64, l: Label, k: u8) {
-    if k == 4 { a.bind_label(l); }
     a.nop();
-    if k == 3 { a.bind_label(l); }
     a.nop();
-    if k == 2 { a.bind_label(l); }
     a.nop();
-    if k == 1 { a.bind_label(l); }
     a.nop();
-    if k == 0 { a.bind_label(l); }
+    a.set_position(4 * (4 - k as usize));
+    a.bind_label(l);
+    a.set_position_end();
 }
 /// four NOPs with `l` bound after the first k (0..=4) of them
 pub fn pad_fwd(a: &mut AssemblerArm64, l: Label, k: u8) {
@@ -1429,3 +1430,140 @@ crate::vp_harness!(tbnz__bwd, unwind = 4, |s| { tb_rows_bwd!(s, tbnz, Op::Tbnz) 
 crate::vp_harness!(tbnz__fwd, unwind = 4, |s| { tb_rows_fwd!(s, tbnz, Op::Tbnz) });
 crate::vp_harness!(tbnz__far, unwind = 4, |s| { tb_rows_far!(s, tbnz, Op::Tbnz) });
 crate::vp_harness!(tbnz__bound, unwind = 4, |s| { tb_rows_bound!(s, tbnz, Op::Tbnz) });
+
+// ==========================================================================================
+// multi-instruction helpers: constant materialisation and the ldr_mem_* / str_mem_* forms
+
+/// one MOVK step on `rd`
+fn movk_step(code: &[u8], k: usize, rd: R, sf: u8, v: u64) -> Option<u64> {
+    let i = decode(word_at(code, k));
+    if i.op != Op::Movk || i.sf != sf || i.rd != rd || i.imm2 < 0 || i.imm2 > 48 {
+        return None;
+    }
+    let sh = i.imm2 as u32;
+    Some((v & !(0xffffu64 << sh)) | ((i.imm as u64) << sh))
+}
+/// value left in `rd` (width sf) by the first n (1..=4) words if they are MOVZ|MOVN|ORR-imm followed by
+/// MOVKs, all on `rd`; None if the words are anything else. Loop-free (hand-unrolled).
+pub fn eval_mov_seq(code: &[u8], n: usize, rd: R, sf: u8) -> Option<u64> {
+    if n == 0 || n > 4 || code.len() < 4 * n {
+        return None;
+    }
+    let mask = if sf == 64 { u64::MAX } else { 0xffff_ffffu64 };
+    let i0 = decode(word_at(code, 0));
+    if i0.sf != sf || i0.rd != rd || i0.imm2 < 0 || i0.imm2 > 48 {
+        return None;
+    }
+    let sh = i0.imm2 as u32;
+    let mut v = match i0.op {
+        Op::Movz => ((i0.imm as u64) << sh) & mask,
+        Op::Movn => !((i0.imm as u64) << sh) & mask,
+        Op::OrrImm => {
+            if i0.rn != R::Zr {
+                return None;
+            }
+            i0.imm as u64
+        }
+        _ => return None,
+    };
+    if n > 1 {
+        v = match movk_step(code, 1, rd, sf, v) { Some(x) => x, None => return None };
+    }
+    if n > 2 {
+        v = match movk_step(code, 2, rd, sf, v) { Some(x) => x, None => return None };
+    }
+    if n > 3 {
+        v = match movk_step(code, 3, rd, sf, v) { Some(x) => x, None => return None };
+    }
+    Some(v & mask)
+}
+
+crate::vp_harness!(mov_imm, unwind = 66, |s| {
+    let (d, qd) = reg(s); let imm = s.i64();
+    let mut a = AssemblerArm64::new();
+    a.mov_imm(d, imm);
+    let code = code_of(a);
+    let n = code.len() / 4;
+    let v = eval_mov_seq(&code, n, qd, 64);
+    crate::vp_note!("{} value {:x?} want {:x}", words_note(&code), v, imm as u64);
+    crate::vp_check!(code.len() % 4 == 0 && n >= 1 && n <= 4, "one to four instruction words");
+    crate::vp_check!(qd != R::Sp, "a wide move cannot target SP");
+    crate::vp_check!(v == Some(imm as u64), "the move-wide sequence leaves the requested 64-bit constant in rd");
+});
+crate::vp_harness!(mov_imm_w, unwind = 66, |s| {
+    let (d, qd) = reg(s); let imm = s.i32();
+    let mut a = AssemblerArm64::new();
+    a.mov_imm_w(d, imm);
+    let code = code_of(a);
+    let n = code.len() / 4;
+    let v = eval_mov_seq(&code, n, qd, 32);
+    crate::vp_note!("{} value {:x?} want {:x}", words_note(&code), v, imm as u32);
+    crate::vp_check!(code.len() % 4 == 0 && n >= 1 && n <= 2, "one or two instruction words");
+    crate::vp_check!(qd != R::Sp, "a wide move cannot target SP");
+    crate::vp_check!(v == Some(imm as u32 as u64), "the move-wide sequence leaves the requested 32-bit constant in rd");
+});
+
+/// ldr_mem_* / str_mem_*(rt, [base, #offset], scratch): access `size` bytes at base + offset.
+/// Either one LDR/STR (scaled unsigned offset) or LDUR/STUR (unscaled) with exactly that offset, or the
+/// offset materialised in `scratch` followed by the register-offset form [base, scratch].
+pub fn chk_mem_helper(code: &[u8], load: bool, size: u8, sf: u8, rt: R, base: R, off: i64, scratch: R) {
+    let n = code.len() / 4;
+    crate::vp_note!("{} off {} scratch {:?}", words_note(code), off, scratch);
+    crate::vp_check!(code.len() % 4 == 0 && n >= 1 && n <= 5, "one to five instruction words");
+    if n == 0 {
+        return;
+    }
+    let last = decode(word_at(code, n - 1));
+    let ok = if n == 1 {
+        let scaled = q_mem(if load { Op::LdrOff } else { Op::StrOff }, size, sf, rt, base, off);
+        let unscaled = q_mem(if load { Op::Ldur } else { Op::Stur }, size, sf, rt, base, off);
+        last == scaled || last == unscaled
+    } else {
+        let v = eval_mov_seq(code, n - 1, scratch, 64);
+        let want = q_memreg(if load { Op::LdrReg } else { Op::StrReg }, size, sf, rt, base, scratch, 3, 0);
+        last == want && v == Some(off as u64)
+    };
+    crate::vp_check!(ok, "the emitted sequence accesses [base + offset] with the requested register and size");
+}
+/// a scratch register: a general register x0..x30 distinct from the base (and, for stores, from the
+/// stored register) -- the calling convention of every scratch parameter ("distinct registers").
+pub fn scratch_reg(s: &mut Src, base: R, other: R) -> (Register, R) {
+    let k = s.below(31);
+    let q = R::X(k);
+    s.assume(q != base && q != other);
+    (Register::new(k), q)
+}
+macro_rules! mem_helper {
+    ($s:ident, $m:ident, $load:expr, $size:expr, $sf:expr) => {{
+        let (t, qt) = reg($s);
+        let (n, qn) = reg($s);
+        let off = $s.i64();
+        let (sc, qs) = scratch_reg($s, qn, if $load { R::None } else { qt });
+        let mut a = AssemblerArm64::new();
+        a.$m(t, MemOperand::new(n, off), sc);
+        let code = code_of(a);
+        chk_mem_helper(&code, $load, $size, $sf, qt, qn, off, qs);
+    }};
+}
+macro_rules! mem_helper_v {
+    ($s:ident, $m:ident, $load:expr, $size:expr) => {{
+        let (t, qt) = neon($s);
+        let (n, qn) = reg($s);
+        let off = $s.i64();
+        let (sc, qs) = scratch_reg($s, qn, R::None);
+        let mut a = AssemblerArm64::new();
+        a.$m(t, MemOperand::new(n, off), sc);
+        let code = code_of(a);
+        chk_mem_helper(&code, $load, $size, 0, qt, qn, off, qs);
+    }};
+}
+crate::vp_harness!(ldr_mem_x, unwind = 66, |s| { mem_helper!(s, ldr_mem_x, true, 8, 64) });
+crate::vp_harness!(ldr_mem_w, unwind = 66, |s| { mem_helper!(s, ldr_mem_w, true, 4, 32) });
+crate::vp_harness!(ldr_mem_b, unwind = 66, |s| { mem_helper!(s, ldr_mem_b, true, 1, 32) });
+crate::vp_harness!(ldr_mem_d, unwind = 66, |s| { mem_helper_v!(s, ldr_mem_d, true, 8) });
+crate::vp_harness!(ldr_mem_s, unwind = 66, |s| { mem_helper_v!(s, ldr_mem_s, true, 4) });
+crate::vp_harness!(str_mem_x, unwind = 66, |s| { mem_helper!(s, str_mem_x, false, 8, 64) });
+crate::vp_harness!(str_mem_w, unwind = 66, |s| { mem_helper!(s, str_mem_w, false, 4, 32) });
+crate::vp_harness!(str_mem_b, unwind = 66, |s| { mem_helper!(s, str_mem_b, false, 1, 32) });
+crate::vp_harness!(str_mem_d, unwind = 66, |s| { mem_helper_v!(s, str_mem_d, false, 8) });
+crate::vp_harness!(str_mem_s, unwind = 66, |s| { mem_helper_v!(s, str_mem_s, false, 4) });
